@@ -610,8 +610,7 @@ def run_procpool_full(spec):
                 obs.hang = r
                 obs.hang_what = 'pp-result-after-exit'
                 obs.stacks = watchdog.all_stacks()
-            with watchdog.polling():
-                watchdog.wait_quiescent(3.0, director=w.director)
+            scenario._settle(w, budget=6.0)
             obs.live_threads = [t.name for t in threading.enumerate() if t.name.startswith('vf-pp-') and t.is_alive()]
     finally:
         pp.GetObjectWorker._IO_CHUNKSIZE = old_chunk
